@@ -151,7 +151,20 @@ def extra(ctx, args):
                 env["OSU_VERIF_NO_EVIDENCE"] = "1"
                 r = subprocess.run([sys.executable, "-B", "-m", "osuverif.main", ctx.pid, "--root", tmp, "--tier", "quick"], cwd=here,
                                    capture_output=True, text=True, env=env, timeout=900)
-                return pf, ("silent" if r.returncode == 0 else "loud"), r.stdout[-400:]
+                # a refactoring recorded (meta.json, DESIGN 8e) as one the rules give no verdict on may answer exit 2; a VIOLATION line
+                # on any of them, or an unexpected exit 2, is a defect of the checker
+                expect = "silent"
+                try:
+                    import json as _json
+                    with open(os.path.join(os.path.dirname(pf), "meta.json")) as fh:
+                        expect = _json.load(fh).get("expected", "silent")
+                except Exception:
+                    pass
+                if r.returncode == 0:
+                    return pf, "silent", ""
+                if r.returncode == 2 and expect == "inconclusive" and "VIOLATION" not in r.stdout:
+                    return pf, "no-verdict", ""
+                return pf, "loud", r.stdout[-400:]
             finally:
                 shutil.rmtree(tmp, ignore_errors=True)
         with ThreadPoolExecutor(max_workers=8) as ex:
@@ -163,4 +176,5 @@ def extra(ctx, args):
                            "needs attention", derived=out[-200:])
         ctx.ok(f"R{ctx.pid[1:]}.live", "<refactoring replay>",
                f"{sum(1 for _, st, _ in rr if st == 'silent')} stored behaviour-preserving refactorings silent, "
+               f"{sum(1 for _, st, _ in rr if st == 'no-verdict')} without a verdict as recorded, "
                f"{sum(1 for _, st, _ in rr if st == 'skipped')} skipped because their patch no longer applies")
